@@ -428,6 +428,7 @@ where
     D: Decoder<Error = Status> + Send + 'static,
     D::Item: Send + 'static,
 {
+    vcommon::body::set_eager_eos(EOS_FLIP.fetch_add(1, Ordering::SeqCst) % 2 == 1);
     let (body, pae) = ScriptBody::new(script);
     let enc = c.comp.map(|e| e.tonic());
     let dmax = c.dmax;
@@ -906,6 +907,7 @@ fn run_declared(out: &mut Out, kind: &str, c: &DecCase) {
     let n_events = evs.len();
     let fuel = n_events + 4;
     let extra = 2usize;
+    vcommon::body::set_eager_eos(EOS_FLIP.fetch_add(1, Ordering::SeqCst) % 2 == 1);
     let (body, pae) = ScriptBody::new(evs);
     let enc = c.enc.map(|e| e.tonic());
     let max = c.max;
@@ -1540,13 +1542,17 @@ fn corpus(out: &mut Out, wc: &mut WireCache) {
 fn replay(out: &mut Out, wc: &mut WireCache, file: &str) {
     let v: Value = serde_json::from_str(&std::fs::read_to_string(file).unwrap()).unwrap();
     let kind = v["kind"].as_str().unwrap_or("c01.random").to_string();
-    if kind == "c06.declared" {
-        run_declared(out, &kind, &DecCase::from_json(&v["input"]));
-    } else {
-        run_case(out, wc, &kind, &Case::from_json(&v["input"]));
+    // twice: over a scripted body with the default is_end_stream() and over an accurate one
+    for _ in 0..2 {
+        if kind == "c06.declared" {
+            run_declared(out, &kind, &DecCase::from_json(&v["input"]));
+        } else {
+            run_case(out, wc, &kind, &Case::from_json(&v["input"]));
+        }
     }
 }
 
+static EOS_FLIP: AtomicUsize = AtomicUsize::new(0);
 fn main() {
     let a = args();
     let mut out = Out::new(&a.out);
